@@ -41,7 +41,7 @@ structure Entry where
   requested : Int
   delays : List Int    -- cyclic inter-trial delays, already `int(round(delay*fs))`
   dpos : Nat           -- position in the cycle
-  dur : Int            -- least integer ≥ duration·fs: for integer n, `duration·fs > n ↔ dur > n`
+  dur : Int            -- samples the trial occupies on the grid: round(duration·fs), as `_ends_after` computes it
   deriving DecidableEq, Repr, Inhabited
 
 /-- entry of `_generated` -/
